@@ -109,7 +109,7 @@ func WorkerMain(chk *Check, thorough bool, scratch string, wid int, deadline tim
 				last, since = v, time.Now()
 				continue
 			}
-			if last > 0 && time.Since(since) > 90*time.Second && atomic.LoadInt32(&busy) == 1 {
+			if last > 0 && time.Since(since) > 25*time.Second && atomic.LoadInt32(&busy) == 1 {
 				enc.Encode(resultMsg{Item: -1, HangSelf: true})
 				os.Exit(3)
 			}
@@ -446,6 +446,7 @@ func RunCheck(chk *Check, thorough bool) int {
 				pw.Close()
 				res := bufio.NewReaderSize(pr, 1<<20)
 				died := false
+				hung := false
 				inflight := -1
 				for {
 					it, ok := takeItem()
@@ -467,9 +468,7 @@ func RunCheck(chk *Check, thorough bool) int {
 					if json.Unmarshal(line, &r) != nil || r.HangSelf {
 						died = true
 						if r.HangSelf {
-							mu.Lock()
-							a.hits["worker-hang"]++
-							mu.Unlock()
+							hung = true
 						}
 						break
 					}
@@ -523,7 +522,7 @@ func RunCheck(chk *Check, thorough bool) int {
 				tail := tailFile(filepath.Join(scratch, fmt.Sprintf("w%d.log", wid)), 1500)
 				cur := readCur(filepath.Join(scratch, fmt.Sprintf("w%d.cur", wid)))
 				kind := "crash"
-				if strings.Contains(tail, "hang") {
+				if hung {
 					kind = "hang"
 				}
 				f := &Failure{Sig: chk.ID + "|worker-died", Kind: kind, Choices: cur,
@@ -533,9 +532,8 @@ func RunCheck(chk *Check, thorough bool) int {
 				a.failcnt[f.Sig]++
 				a.aborted = true
 				mu.Unlock()
-				if gen >= 2 {
-					return
-				}
+				// a dead worker is not replaced: the violation is established, the rest of the space is reported as not covered
+				return
 			}
 		}(w)
 	}
